@@ -20,6 +20,15 @@ _cells.update({'route_plain': 5000, 'route_lightweight_copy_private_mutation': 1
                'used_target_nonempty_incoming_empty': 500, 'used_target_had_more_fields': 2000, 'used_target_had_fewer_fields': 2000, 'equality_checked_on_used_target': 5000,
                'arefieldsequal_checked': 50000, 'arefieldsequal_cross_unequal_checked': 20000, 'arefieldsequal_one_sided_checked': 2000, 'typefilter_lists_checked': 100000,
                'observed_shared_mutation_visible_in_source': 100, 'tostring_calls': 300})
+# serialisation / parse entry points as a generator dimension (third round)
+_SER = ['flatten_dataflattener', 'flattentobytes_without_size', 'flattentobytebuffer_ref', 'flattentobytebuffer_object', 'copyto_bytebuffer', 'flattentodataio',
+        'getflattenedbytebufferfrompool', 'writeflatwithlengthprefix', 'copyto_other_flattenable', 'dataflattener_on_bytebuffer']
+_PAR = ['unflattenfrombytes', 'unflatten_dataunflattener', 'unflattenfrombytebuffer_object', 'unflattenfrombytebuffer_ref', 'unflattenfromdataio_given_size',
+        'unflattenfromdataio_size_header', 'copyfrom_bytebuffer', 'dataunflattener_readflat', 'dataunflattener_readflatwithlengthprefix']
+_cells.update({'ser_' + n: 3000 for n in _SER}); _cells.update({'par_' + n: 3000 for n in _PAR})
+_cells.update({'flatten_into_%s_buffer' % st: 1000 for st in ['empty', 'shorter', 'exact', 'longer_by_one', 'longer', 'much_longer', 'longer_holding_another_message', 'shorter_holding_another_message']})
+_cells.update({'copyto_into_%s_buffer' % st: 100 for st in ['empty', 'shorter', 'exact', 'longer_by_one', 'longer', 'much_longer', 'longer_holding_another_message']})
+_cells.update({'destination_buffer_pooled': 5000, 'destination_buffer_on_stack': 5000})
 _product = {'product_%s_%s' % (t, s): 1 for t in _TYPES for s in _STATES}
 _product.update({'cell_%s_%s' % (t, s): 1 for t in _TYPES for s in _STATES})
 
@@ -51,7 +60,14 @@ SPEC = dict(
           "FindMessage re-inserted, FindString(const char*&).  The parse step is repeated into a used target (unrelated content / copy of the same "
           "Message / variant with more, fewer, retyped, reordered fields / product of an earlier Unflatten) with the same structure, bytes, checksum "
           "and equality demands as for a fresh object; AreFieldsEqual must agree with field-wise equality; type-filtered field-name iteration must "
-          "list exactly the fields of that type in order."),
+          "list exactly the fields of that type in order.  Entry points are a dimension too: besides the exact-size FlattenToBytes(buf, n) every case "
+          "serialises through FlattenToByteBuffer(ByteBuffer &) into a destination that is empty / shorter / exact / longer by one / longer / much "
+          "longer / just used for another Message (stack or pooled object) and through two PRNG-chosen others of Flatten(DataFlattener), "
+          "FlattenToBytes(buf), FlattenToByteBuffer(), CopyTo/CopyFrom(ByteBuffer), FlattenToDataIO (with and without size header), "
+          "GetFlattenedByteBufferFromPool, DataFlattener::WriteFlatWithLengthPrefix, CopyTo(another Flattenable), DataFlattener(ByteBuffer): each must "
+          "leave exactly FlattenedSize() bytes, the same bytes.  The fresh and the used parse target are filled through a PRNG-chosen one of "
+          "UnflattenFromBytes, Unflatten(DataUnflattener), UnflattenFromByteBuffer(object / ref), UnflattenFromDataIO (given size / size header), "
+          "CopyFrom(ByteBuffer), DataUnflattener::ReadFlat, ReadFlatWithLengthPrefix."),
     assumptions=['the layout comment in Message::Flatten() (Message.cpp) and the doc comments of Message.h are the specification',
                  'operator== with NaN items is IEEE comparison (unspecified by the property): only consistency is demanded there',
                  'identity of tag objects and equality of copies holding pointer/tag fields are outside the property (counted as unspecified_*)',
@@ -66,5 +82,5 @@ SPEC = dict(
         Leg('product', 'h_msgroundtrip', 'asan', opts={'mode': 'product'}, quick=1890, thorough=47250, workers=16, leaks=True),
         Leg('memcheck', 'h_msgroundtrip', 'plain', opts={'mode': 'roundtrip'}, quick=1000, thorough=20000, workers=16, valgrind=True),
     ],
-    min_stats={'regress': {'regress_messages': 40}, 'roundtrip': _cells, 'product': _product},
+    min_stats={'regress': {'regress_messages': 44}, 'roundtrip': _cells, 'product': _product},
 )
